@@ -52,6 +52,7 @@ pub fn order_rules() -> Vec<Rewrite> { vec![
         "(mergejoin ?type ?cond ?lkey ?rkey ?left ?right)"
         if is_orderby("?lkey", "?left")
         if is_orderby("?rkey", "?right")
+        if merge_join_supports("?type")
     ),
     rw!("sort-agg";
         "(hashagg ?keys ?aggs ?child)" =>
@@ -59,6 +60,18 @@ pub fn order_rules() -> Vec<Rewrite> { vec![
         if is_orderby("?keys", "?child")
     ),
 ]}
+
+/// Returns true if the merge join executor implements the join type (it has no semi / anti join).
+fn merge_join_supports(ty: &str) -> impl Fn(&mut EGraph, Id, &Subst) -> bool {
+    let ty = var(ty);
+    move |egraph, _, subst| {
+        use Expr::*;
+        egraph[subst[ty]]
+            .nodes
+            .iter()
+            .any(|n| matches!(n, Inner | LeftOuter | RightOuter | FullOuter))
+    }
+}
 
 /// Returns true if the plan is ordered by the keys.
 fn is_orderby(keys: &str, plan: &str) -> impl Fn(&mut EGraph, Id, &Subst) -> bool {
